@@ -211,7 +211,8 @@ SegmentOrderOK(T, m, strictVertical) ==
                 i == SegInter(s[1], s[2], t[1], t[2])
                 crossing == i.k = "point" /\ InteriorOf(i.p, s) /\ InteriorOf(i.p, t)
                 sep == Separation(s, t)
-                stacked == s[1][1] = s[2][1] /\ t[1][1] = t[2][1]          \* both vertical, on one line
+                stacked == /\ s[1][1] = s[2][1] /\ t[1][1] = t[2][1]       \* both vertical, on one line,
+                           /\ ESubj(T[x[1]]) # ESubj(T[x[2]])             \* of different operands (finding N4)
             IN (~crossing /\ i.k # "overlap" /\ sep[1] # sep[2] /\ (strictVertical \/ ~stacked \/ CoOccur(T, x[1], x[2])))
                  => (x[3] = -1) = sep[1]
 
